@@ -293,6 +293,126 @@ def _native_scipy_special(spec):
         return True, f"raises {type(e).__name__}: {str(e)[:80]} (allowed)", "-"
 
 
+ELEMENTWISE_MODULES = ["autograd/scipy/stats/norm.py", "autograd/scipy/stats/t.py", "autograd/scipy/stats/gamma.py", "autograd/scipy/stats/beta.py", "autograd/scipy/stats/chi2.py",
+                       "autograd/scipy/stats/poisson.py"]
+
+
+class _Deep:
+    """`scipy.stats.norm.pdf`-style attribute chains: every leaf is an abstract function that is element-wise in all its arguments (NumPy broadcasting)."""
+
+    def __init__(self, name):
+        self.__name__ = name
+        self.name = name
+
+    def __getattr__(self, nm):
+        if nm.startswith("__"):
+            raise AttributeError(nm)
+        d = _Deep(nm)
+        object.__setattr__(self, nm, d)
+        return d
+
+    def __call__(self, *args, **kw):
+        return sx.SArr(sx.bshape(*[sx.shape_of(a) for a in list(args) + list(kw.values())]), "real")
+
+
+def run_elementwise_modules(rep, tier):
+    """E3 for the element-wise SciPy rule modules (scipy.stats distributions): every registered reverse rule, the differentiated argument against the others in 8
+    broadcasting patterns, all sizes symbolic: the gradient has the differentiated argument's shape."""
+    import inspect
+    import os
+    from vlib.common import REPO
+    rv0, rj0, anp, _ = load()
+    ns_v = _cache["ns_v"]
+    A = lambda *d: ("A", d, "real")
+    bc = [((), ()), (("n",), ("n",)), (("n",), ()), ((), ("n",)), (("n", "m"), ("m",)), (("m",), ("n", "m")), (("n", 1), (1, "m")), (("n", "m"), ("n", "m"))]
+    npaths = ncases = 0
+    rep.assume("scipy.stats / scipy.special functions are element-wise in all their arguments with NumPy broadcasting; values are not modelled")
+    for rel in ELEMENTWISE_MODULES:
+        if not os.path.exists(os.path.join(REPO, rel)):
+            rep.uncover(f"E3 element-wise modules: {rel} does not exist")
+            continue
+        rv = shadow.Recorder()
+        deep = _Deep("scipy")
+        try:
+            ns, dropped = shadow.load(rel, dict(sp=deep, sps=deep, scipy=deep, anp=anp, defvjp=rv.defvjp, defjvp=lambda *a, **k: None, primitive=rv.primitive, unbroadcast_f=ns_v["unbroadcast_f"],
+                                                **{nm: _Deep(nm) for nm in ("gamma", "psi", "beta", "digamma", "gammaln", "polygamma", "betaln", "erf", "erfc", "logsumexp")}))
+        except CheckerError as e:
+            rep.obligation(f"E3:{rel}:load", False, "-", 0, "E3")
+            rep.violation("E3:elementwise:load", rel, f"the module no longer loads on the abstract namespace: {e}", witness=False, solver_output=str(e))
+            continue
+        rep.function(f"{rel} (module-level defvjp rules)", os.path.join(REPO, rel))
+        mod = rel[:-3].replace("/", ".")
+        for (name, a), mk in sorted(rv.vjps.items(), key=lambda kv: (kv[0][0], kv[0][1])):
+            if mk is None:
+                continue
+            try:
+                params = [p_ for p_ in inspect.signature(mk).parameters.values() if p_.kind in (p_.POSITIONAL_ONLY, p_.POSITIONAL_OR_KEYWORD)]
+            except (TypeError, ValueError):
+                continue
+            nargs = len(params) - 1
+            if a >= nargs:
+                continue
+            for s0, s1 in (bc if nargs > 1 else [((), ()), ((), ("n",)), ((), ("n", "m"))]):
+                shapes = [s1 if i == a else s0 for i in range(nargs)]
+                label = f"{mod}.{name}{tuple(shapes)}"
+                case = f"{label}|arg{a}|vjp"
+                ncases += 1
+
+                def harness(L, name=name, shapes=shapes, a=a, mk=mk):
+                    _state["oblig"] = []
+                    args = _sym_args(L, [A(*sh) for sh in shapes], {})
+                    ans = rv.helpers[name](*args)
+                    _state["oblig"] = []
+                    res = mk(ans, *args)(sx.SArr(sx.shape_of(ans), "real"))
+                    if not isinstance(res, sx.SArr):
+                        return None
+                    return (sx.shape_of(res), sx.kind_of(res)), list(_state["oblig"]), (sx.shape_of(args[a]), "real")
+                try:
+                    results, _ = cx.explore(harness)
+                except (shadow.NotModelled, CheckerError) as e:
+                    rep.uncover(f"E3 element-wise modules: {case}: {e}"[:160])
+                    continue
+                for r in results:
+                    if r.exc is None and r.value is None:
+                        continue
+                    npaths += 1
+                    if r.exc is None:
+                        res, obl, want = r.value
+                        r.value = (res, obl)
+                    else:
+                        res, want = None, (None, None)
+                        if isinstance(r.exc, (shadow.NotModelled, NotImplementedError)):
+                            rep.uncover(f"E3 element-wise modules: {case}: {type(r.exc).__name__}: {str(r.exc)[:60]}")
+                            continue
+                    _check_leaf(rep, tier, f"vjp:{mod}.{name}:{case}", r, res, want[0], want[1], case,
+                                dict(module="contracts.rules_shape", family="elementwise_module", label=label, pymodule=mod, name=name, spec=[list(sh) for sh in shapes], argnum=a, mode="vjp"))
+    rep.bound(f"E3 element-wise SciPy modules: {ncases} (rule, broadcasting pattern) pairs over {len(ELEMENTWISE_MODULES)} modules enumerated; sizes symbolic")
+    rep.extra["e3_elementwise_module_paths"] = npaths
+
+
+def _native_elementwise_module(spec):
+    import importlib
+
+    import numpy as onp
+    from autograd.core import make_vjp
+    sizes = spec.get("sizes", {})
+    dim = lambda d: d if isinstance(d, int) else max(1, int(sizes.get(d, 2)))
+    args = []
+    for j, shp in enumerate(spec["spec"]):
+        shp = tuple(dim(d) for d in shp)
+        n = int(onp.prod(shp)) if shp else 1
+        arr = (onp.arange(n, dtype=float) * 0.11 + 0.7 + 0.45 * j).reshape(shp)
+        args.append(arr if shp else float(arr))
+    a = spec["argnum"]
+    try:
+        fn = getattr(importlib.import_module(spec["pymodule"]), spec["name"])
+        vjp, val = make_vjp(lambda z: fn(*[z if i == a else v for i, v in enumerate(args)]), args[a])
+        r = onp.asarray(vjp(onp.ones(onp.shape(val))))
+        return r.shape == onp.shape(args[a]), f"gradient shape {r.shape} for an argument of shape {onp.shape(args[a])}", "the argument's shape"
+    except Exception as e:
+        return True, f"raises {type(e).__name__}: {str(e)[:80]} (allowed)", "-"
+
+
 FFT_NAMES = ("fft", "ifft", "fft2", "ifft2", "fftn", "ifftn", "rfft", "irfft", "rfft2", "irfft2", "rfftn", "irfftn", "fftshift", "ifftshift", "fftfreq", "rfftfreq", "hfft", "ihfft")
 
 
@@ -1174,6 +1294,8 @@ def replay(spec):
         return _native_fft(spec)
     if spec.get("family") == "scipy_special":
         return _native_scipy_special(spec)
+    if spec.get("family") == "elementwise_module":
+        return _native_elementwise_module(spec)
     sizes = spec.get("sizes", {})
 
     def arr(tag, rank, kind):
